@@ -250,7 +250,49 @@ KNOWN_PREDICATES.update({
 })
 
 
+# ---------------------------------------------------------------- larger sampled shapes (rank <= 5, extents <= 7)
+def gen_large(tier, rng):
+    n = 60 if tier == 'quick' else 400
+    for _ in range(n):
+        s = rand_shape(rng, 5, 7)
+        while prod(s) > 3000:
+            s = rand_shape(rng, 5, 7)
+        a = iota(s)
+        dim = len(s)
+        tg = ['large', 'rank=%d' % dim]
+        reps = [rng.randint(1, 3) for _ in range(rng.randint(1, dim + 1))]
+        if prod(s) * prod(reps) <= 20000:
+            yield Case('tile shape=%s reps=%s' % (fmt(s), fmt(reps)), H_A, oracle=ans(np.tile(a, reps)), tags=['tile'] + tg)
+        ax = rng.randrange(dim)
+        r = rng.randint(1, 3)
+        yield Case('repeat shape=%s repeats=%d axis=%d' % (fmt(s), r, ax), H_A, oracle=ans(np.repeat(a, r, axis=ax)), tags=['repeat'] + tg)
+        rs = [rng.randint(0, 3) for _ in range(s[ax])]
+        yield Case('repeat shape=%s rlist=%s axis=%d' % (fmt(s), fmt(rs), ax), H_A, oracle=ans(np.repeat(a, rs, axis=ax)), tags=['repeat'] + tg)
+        yield Case('repeat shape=%s repeats=%d axis=None' % (fmt(s), r), H_A, oracle=ans(np.repeat(a, r)), tags=['repeat'] + tg)
+        ax2 = rng.randrange(-dim, dim)
+        sh = rng.randint(-s[ax2], s[ax2])
+        yield Case('roll shape=%s shift=%d axis=%d' % (fmt(s), sh, ax2), H_A, oracle=ans(np.roll(a, sh, axis=ax2)), tags=['roll'] + tg)
+        sh = rng.randint(-prod(s), prod(s))
+        yield Case('roll shape=%s shift=%d axis=None' % (fmt(s), sh), H_A, oracle=ans(np.roll(a, sh)), tags=['roll'] + tg)
+        axs = rng.sample(range(dim), rng.randint(1, dim))
+        shs = [rng.randint(-s[x], s[x]) for x in axs]
+        axs = [x - dim if rng.random() < 0.5 else x for x in axs]
+        yield Case('roll shape=%s slist=%s alist=%s' % (fmt(s), fmt(shs), fmt(axs)), H_A, oracle=ans(np.roll(a, shs, axis=tuple(axs))), tags=['roll'] + tg)
+        w = [rng.randint(0, 2) for _ in range(2 * dim)]
+        if prod([e + 4 for e in s]) <= 30000:
+            yield Case('pad shape=%s widths=%s' % (fmt(s), fmt(w)), H_A, oracle=ans(np_pad_flat(a, w)), tags=['pad'] + tg)
+        ind = [rng.randrange(s[ax]) for _ in range(rng.randint(1, 6))]
+        yield Case('take shape=%s indices=%s axis=%d' % (fmt(s), fmt(ind), ax), H_A, oracle=ans(np.take(a, ind, axis=ax)), tags=['take'] + tg)
+        ind = [rng.randrange(prod(s)) for _ in range(rng.randint(1, 6))]
+        yield Case('take shape=%s indices=%s axis=None' % (fmt(s), fmt(ind)), H_A, oracle=ans(np.take(a, ind)), tags=['take'] + tg)
+        s2 = list(s)
+        s2[ax] = rng.randint(1, 7)
+        yield Case('concatenate shape=%s shape2=%s axis=%d' % (fmt(s), fmt(s2), ax), H_A,
+                   oracle=ans(np.concatenate([a, iota(s2, 1000)], axis=ax)), tags=['concatenate'] + tg)
+
+
 def gen(tier, rng):
+    yield from gen_large(tier, rng)
     yield from gen_tile(tier, rng)
     yield from gen_repeat(tier, rng)
     yield from gen_roll(tier, rng)
